@@ -32,8 +32,16 @@ def kernel_queries(tier):
     for lk in (1, 2, 3):
         for rk in (1, 2, 3):
             qs.append(kq('kernel/div/%s-%s' % (KN[lk], KN[rk]), 'h_div', {'LK': lk, 'RK': rk}, backend='cvc5', timeout=300))
-    qs.append(kq('kernel/div/any', 'h_div', {'LK': 0, 'RK': 0}, backend='cvc5', timeout=300))
-    qs.append(kq('kernel/add/anyreal', 'h_arith', {'OPER': 11, 'LK': 0, 'RK': 1}, backend='cvc5', timeout=300))
+    # % : the three genuine findings apart, then the rest
+    EX = ['C04-rem-zero', 'C04-rem-overflow', KF_NAT]
+    qs.append(kq('kernel/rem/any', 'h_rem', {'LK': 0, 'RK': 0}, kf_excl=EX, timeout=300))
+    qs.append(kq('kernel/rem/kf-zero', 'h_rem', {'LK': 0, 'RK': 0}, kf_only='C04-rem-zero', timeout=300))
+    qs.append(kq('kernel/rem/kf-overflow', 'h_rem', {'LK': 0, 'RK': 0}, kf_only='C04-rem-overflow', timeout=300))
+    qs.append(kq('kernel/rem/kf-natural', 'h_rem', {'LK': 0, 'RK': 0}, kf_only=KF_NAT, timeout=300))
+    for op in (9, 10):
+        qs.append(kq('kernel/%s/any' % OPN[op], 'h_bit', {'OPER': op, 'LK': 0, 'RK': 0}, timeout=300))
+    for op in (1, 2, 3, 4, 5, 6, 7, 8):
+        qs.append(kq('kernel/%s/any' % OPN[op], 'h_cmp', {'OPER': op, 'LK': 0, 'RK': 0}, kf_excl=[KF_NAT], timeout=300))
     return qs
 def queries(tier):
     return kernel_queries(tier)
